@@ -63,6 +63,8 @@ static void push(int** a, int* n, int* cap, int v)
 // key-0 element inserted while no NULL element is live is handed to the tree as the NULL pointer; elem[null_id]
 // is its shadow record.  Comparator, destroy callback and zix_tree_get results map NULL back to the shadow.
 static int null_mode;
+static ZixTreeIter* last_found;      // the iterator most recently set by a successful zix_tree_find (never dereferenced)
+static long         stale_dummy[8];  // a non-NULL value for the out-iterator when nothing was found yet
 static int null_id = -1;
 
 static Elem* unnull(const void* p)
@@ -348,6 +350,7 @@ int main(void)
     const int dup = tok && tok[0] == 'd' && tok[1] == '1';
     null_mode     = tok && strchr(tok, 'z') != NULL;
     null_id       = -1;
+    last_found    = NULL;
     n_ids = 0;
     ud_bad = 0;
     steer_target = -1;
@@ -463,16 +466,23 @@ int main(void)
         free(dbuf);
         do_sweep(s);
       } else if (c == 'f') {
-        Elem         p  = {arg, -1};
-        ZixTreeIter* ti = NULL;
+        Elem p = {arg, -1};
+        // the out-iterator is pre-loaded with a non-NULL value (the most recently found iterator, possibly of a node
+        // freed since; else a dummy): tree.h documents "If no such item exists, `ti` is set to NULL"
+        ZixTreeIter* ti = last_found ? last_found : (ZixTreeIter*)(void*)stale_dummy;
         probe           = &p;
         n_cmplog        = 0;
         const ZixStatus st = zix_tree_find(tree, &p, &ti);
         const char* sname = st == ZIX_STATUS_SUCCESS ? "OK" : st == ZIX_STATUS_NOT_FOUND ? "NOTFOUND" : zix_strerror(st);
-        if (ti) {
+        if (st != ZIX_STATUS_SUCCESS) {
+          // never dereferenced: only whether the library reset it
+          fprintf(o, "f:%s:%s:s%zu", sname, ti ? "STALE" : "-", zix_tree_size(tree));
+          fputs("-:c", s);
+        } else if (ti) {
           Elem* e = elem_of(ti);
           fprintf(o, "f:%s:%d:s%zu", sname, e->key, zix_tree_size(tree));
           fprintf(s, "%d:c", (iter[e->id] == ti) ? e->id : -3);
+          last_found = ti;
         } else {
           fprintf(o, "f:%s:-:s%zu", sname, zix_tree_size(tree));
           fputs("-:c", s);
